@@ -430,6 +430,12 @@ func enumMembers(tier string, cfg gen.Config) []member {
 		// ... of an array that is itself a definition (declared array type)
 		out = append(out, member{name: "enum items of an array definition " + sp.String(), cfg: cfg, root: place(&fam.Spec{Kind: "array", Items: sp.Clone()}, "def-required")})
 	}
+	// a nullable string enum that lists null among its values, where the value is not behind a pointer
+	for _, order := range []string{"after", "before"} {
+		sp := &fam.Spec{Kind: "string", Null: order, Enum: "strings+null"}
+		out = append(out, member{name: "enum required nullable(" + order + ") strings and null", cfg: cfg, root: place(sp, "required")})
+		out = append(out, member{name: "enum items nullable(" + order + ") strings and null", cfg: cfg, root: place(&fam.Spec{Kind: "array", Items: sp.Clone()}, "required")})
+	}
 	// an integer enum that also carries a width hint: the carrier stays the type of the value table's elements
 	for _, f := range []string{"int32", "int64"} {
 		sp := &fam.Spec{Kind: "integer", Enum: "ints", Format: f}
